@@ -246,6 +246,35 @@ func patternData(n int, fill byte) []byte {
 	return d
 }
 
+// mineGuarded calls Mine with a 60 s context and, should the call not return within 100 s, ends the
+// process as inconclusive: termination is C13's statement, C11 cannot be decided by a call that hangs.
+func mineGuarded(sub string, c any, w *pow.Worker, cancelMode int, data []byte, target float64) (uint64, error) {
+	ctx, cancel := context.WithTimeout(context.Background(), 60*time.Second)
+	defer cancel()
+	switch cancelMode {
+	case 1:
+		cancel()
+	case 2:
+		go func() { time.Sleep(200 * time.Microsecond); cancel() }()
+	}
+	type res struct {
+		nonce uint64
+		err   error
+	}
+	ch := make(chan res, 1)
+	go func() {
+		n, e := w.Mine(ctx, data, target)
+		ch <- res{n, e}
+	}()
+	select {
+	case r := <-ch:
+		return r.nonce, r.err
+	case <-time.After(100 * time.Second):
+		h.InfraAndExit("C11", sub, c, fmt.Sprintf("Mine(%d bytes of data, target=%v) did not return within 100 s (40 s after its context expired); C11 cannot be decided, see C13", len(data), target))
+	}
+	return 0, nil
+}
+
 func checkHistory(c histCase) (h.Info, error) {
 	w := pow.New(c.Workers)
 	info := h.Info{Class: "history/plain", NT: len(c.Steps) > 1}
@@ -253,15 +282,7 @@ func checkHistory(c histCase) (h.Info, error) {
 	for i, st := range c.Steps {
 		data := patternData(st.DataLen, st.Fill)
 		target := boundary(st.K, st.DataLen+8)
-		ctx, cancel := context.WithTimeout(context.Background(), 60*time.Second)
-		switch st.Cancel {
-		case 1:
-			cancel()
-		case 2:
-			go func() { time.Sleep(200 * time.Microsecond); cancel() }()
-		}
-		nonce, err := w.Mine(ctx, data, target)
-		cancel()
+		nonce, err := mineGuarded("mine-histories", c, w, st.Cancel, data, target)
 		if err != nil {
 			if st.Cancel != 0 {
 				sawCancelled = true
@@ -325,9 +346,7 @@ func checkConcurrent(c concCase) (h.Info, error) {
 	err := h.Parallel(len(c.Jobs), func(g int) error {
 		jb := c.Jobs[g]
 		for it := 0; it < c.Iters; it++ {
-			ctx, cancel := context.WithTimeout(context.Background(), 60*time.Second)
-			nonce, err := w.Mine(ctx, append([]byte{}, jb.Data...), jb.target())
-			cancel()
+			nonce, err := mineGuarded("concurrent-callers-one-worker", c, w, 0, append([]byte{}, jb.Data...), jb.target())
 			if err != nil {
 				continue
 			}
